@@ -193,6 +193,33 @@ def rule_f(R, ctx):
     R.ob("C20.f", fn, "counts-live-countable", okg, "index walk counts only live countable items: %s (%d sites)" % (okg, len(subs)))
 
 
+CLEAR_LINKED_OWNERS = {
+    "yrs::block::Item::inherit_links": "a map entry is overridden: the links move to the new entry (clear on the old, set on the new)",
+    "yrs::transaction::TransactionMut::unlink": "the last quotation referencing the item is removed",
+}
+
+
+def rule_g(R, ctx):
+    Y = ctx.yrs
+    R.rule("C20.g", "R-OWN tombstones stay linked: ItemFlags::clear_linked is called only where the quotations themselves go away "
+                    "(unlink of the last link) or move on (inherit_links), under ownership closure — in particular not on the "
+                    "deletion path of the quoted item: the LINKED flag of a deleted boundary block is what keeps try_squash from "
+                    "merging it with a tombstone outside the range, after which the quotation's end is never matched")
+    css = callers_of(Y, "yrs::block::ItemFlags::clear_linked")
+    writers = sorted(css)
+    bad = ownership_closed(Y, writers, CLEAR_LINKED_OWNERS)
+    for w in writers:
+        for cs, site in ordinal_sites(css[w]):
+            R.ob("C20.g", cs.fn, site, w not in bad,
+                 ("owner: " + CLEAR_LINKED_OWNERS.get(w, "helper reachable only from owners")) if w not in bad else
+                 "clear_linked outside the owner table %s: a deleted item that quotations still reference loses the flag that "
+                 "keeps it a block of its own" % sorted(CLEAR_LINKED_OWNERS), cs.loc())
+    R.floor("C20.g", "clear_linked call sites", sum(len(v) for v in css.values()), 2)
+    # and the squash precondition that relies on it
+    from . import c03
+    c03.rule_b(R, ctx, "C20.g.squash")
+
+
 def check(ctx, R):
     from . import wire_rules
     R.run("C20.a", rule_a, ctx)
@@ -201,4 +228,5 @@ def check(ctx, R):
     R.run("C20.d", wire_rules.c20_d, ctx)
     R.run("C20.e", rule_e, ctx)
     R.run("C20.f", rule_f, ctx)
+    R.run("C20.g", rule_g, ctx)
     return {}
